@@ -49,7 +49,8 @@ theorem C10_positions (l : Loc) (decos kids : List Node) :
 theorem C10_generated_good :
     Generated.hookDefDecorator = "append" ∧ Generated.hookClassDecorator = "insert0" ∧
     Generated.hookCopiesLocation = true ∧ Generated.hookImportRule = "before-first-non-prologue" ∧
-    Generated.hookVisitors = ["visit_ClassDef", "visit_FunctionDef", "visit_Module"] := by decide
+    Generated.hookVisitors = ["visit_ClassDef", "visit_FunctionDef", "visit_Module"] ∧
+    Generated.hookCompileIsolated = true := by decide
 
 /-! non-vacuity -/
 private def L (n : Nat) : Loc := ⟨n, 0, n, 9⟩
